@@ -45,6 +45,9 @@ var cores = []core{
 	{"blocked-send", "never <- 1", true},
 	{"blocked-range", "for x in never { s(1) }", true},
 	{"blocked-recv2", "v, ok = <-never", true},
+	// forwarding form dst <- src: the receive half succeeds, the send half can never complete
+	{"blocked-forward", "rdy = make(chan int64, 1)\nrdy <- 1\nnever <- rdy", true},
+	{"blocked-forward2", "rdy = make(chan int64, 1)\nrdy <- 1\nnever <- <-rdy", true},
 }
 
 type wrapper struct {
@@ -421,7 +424,7 @@ func coverage(c *common.Ctx, r *common.Result) map[string]interface{} {
 		"programs":                      r.Counts["programs"],
 		"cancellation_instants":         r.Counts["cancellations"],
 		"max_schedule_points":           r.GetMax("points"),
-		"rule": "programs = every nesting (depth <=2 quick, <=3 thorough with family representatives innermost) of 23 wrapping constructs (if/else/else-if, switch case/default, three loop forms, try body / catch / finally, ?? left and right, script functions of arity 0,1,4,5 and variadic, anonymous call, deferred call, go call, callback handed to a Go function) around 11 cores (spinning: four loop forms, map loop, recursion, looping callee - bounded at 22 iterations, far beyond the cancellation window; blocked: receive, send, range, two-value receive on a channel nobody serves); " +
+		"rule": "programs = every nesting (depth <=2 quick, <=3 thorough with family representatives innermost) of 23 wrapping constructs (if/else/else-if, switch case/default, three loop forms, try body / catch / finally, ?? left and right, script functions of arity 0,1,4,5 and variadic, anonymous call, deferred call, go call, callback handed to a Go function) around 13 cores (spinning: four loop forms, map loop, recursion, looping callee - bounded at 22 iterations, far beyond the cancellation window; blocked: receive, send, range, two-value receive and the forwarding form dst <- src on a channel nobody serves); " +
 			"every context poll and channel operation is a schedule point and 'cancel now' competes at each of them (deviation bound 1; programs with goroutines: all interleavings with preemption+cancel bound 2 (thorough: bound 3 at depth <= 2, bound 1 at depth 3)); after the cancellation the call must return 'execution interrupted', no statement probe may run, no thread may poll more than depth+2 times, no thread may stay blocked; states = distinct (program, oracle outcome) pairs, transitions = scheduler steps, traces_validated = runs in which a cancellation was delivered and judged",
 	}
 }
